@@ -2,6 +2,6 @@
    extracted inductive types; no Extract Constant. *)
 From Coq Require Import Extraction ExtrOcamlBasic ZArith.
 From KV.Base Require Import Word.
-From KV.Kcp Require Import Kcp.
+From KV.Kcp Require Import Kcp FlushT.
 Extraction "kcp_model.ml" kcp_new send recv peeksize input flush update check set_mtu set_nodelay
-  set_wndsize set_stream waitsnd set_seq u32 itimediff.
+  set_wndsize set_stream waitsnd set_seq u32 itimediff flush_t input_t update_t.
